@@ -32,7 +32,7 @@ RULE = ("cases = (dataset, 1-2 rule variables, head T(f1=e1..) with keyword or p
         "Hypothesis; the multiset of (class, field identities) of the inferred instances, their freshness, and the "
         "constructor-call count are compared with the reference. Non-trivial = >= 2 satisfying assignments with differing "
         "field values and >= 1 non-satisfying assignment; distinct = canonical JSON.")
-BUDGET = {"quick": (4, 400), "thorough": (16, 4000)}
+BUDGET = {"quick": (8, 400), "thorough": (16, 4000)}
 ASSUMPTIONS = ["the head's argument expressions together mention every variable of the rule"]
 
 
